@@ -208,6 +208,7 @@ func runC05(c *Ctx) {
 	c.obWriters("Conn.bdatPipe", "created with the delivery goroutine; cleared after an abort", "(*Conn).handleBdat", "(*Conn).reset", "(*Conn).Close")
 	// end-of-file only after the LAST chunk, and only a well-formed LAST token ends the message
 	rulePipeClose(c)
+	ruleProtocolErrorSites(c)   // a refused BDAT gets its one reply and the connection goes on, however many were refused before
 	ruleResultOnEveryExit(c)    // a backend that returns without reading everything releases the chunk copy (reading end closed on every exit): the rest of the chunk is discarded, the next command parsed at the chunk boundary
 	ruleLineLimitLayer(c)       // the limit handleBdat lifts is the one textproto reads through
 	ruleStreamLayersReadOnly(c) // "all 256 octet values": no layer between the socket and the chunk copy rewrites octets
